@@ -32,8 +32,8 @@ CHECKS = {
             "whitespace oracle = the statement's: none invented (output whitespace only where the source has some), separation kept between adjacent inline content (sibling tier and across control-flow joints); pairs across comments, raw Go, calls, block elements and loop iterations are don't-care",
             "inline element = inline both in HTML and in templ's classification (conservative list)",
         ],
-        "quick": {"timeout": 900, "runs": [{"run": "^TestPropCompiles$", "rapid_checks": 250}, {"run": "^TestPropRenders$", "rapid_checks": 12}]},
-        "thorough": {"timeout": 3400, "shards": 12, "runs": [{"run": "^TestPropCompiles$", "rapid_checks": 2500}, {"run": "^TestPropRenders$", "rapid_checks": 50}]},
+        "quick": {"timeout": 900, "runs": [{"run": "^TestProp(Compiles|Layouts)$", "rapid_checks": 3000}, {"run": "^TestPropRenders$", "rapid_checks": 12}]},
+        "thorough": {"timeout": 3400, "shards": 12, "runs": [{"run": "^TestProp(Compiles|Layouts)$", "rapid_checks": 30000}, {"run": "^TestPropRenders$", "rapid_checks": 50}]},
     },
     "C03": {
         "pkg": "./checks/c03",
